@@ -114,7 +114,7 @@ func mkWorkloads(long bool) []*workload {
 	// 6. the operator invalidates a block of the active chain (tip moves back),
 	// then the other branch arrives and takes over
 	o5 := seq(A[0], A[1], A[2], A[3], A[4])
-	o5 = append(o5, B[:4]...)
+	o5 = append(o5, B[:2]...) // B4 (height 4) wins only because A4 and A5 are gone
 	wl = append(wl, &workload{Name: "invalidate", w: w, order: o5, invAfter: map[int]*lab.Blk{4: A[3]}})
 	return wl
 }
@@ -459,6 +459,16 @@ func (r *run) converge(finalTip chainhash.Hash, finalUtxo lab.UtxoSet) string {
 		_ = extends
 		if stuck > 0 && ft.Height > r.wl.w.ByHash[best.Hash].Height {
 			cause = "stored-but-unconnected-block-is-refused-as-duplicate"
+		}
+		// diagnosis: the recovered active chain holds a block that carries an
+		// invalid flag (the process died inside InvalidateBlock, after the flags
+		// were written and before the block was disconnected; the repeated call
+		// returns early because the block "is already invalid")
+		for _, b := range r.wl.w.ByHash[best.Hash].Chain() {
+			if st, known := r.c.BC.VerifNodeStatus(&b.Hash); known && st&(4|8) != 0 {
+				cause = "active-chain-holds-a-block-flagged-invalid"
+				break
+			}
 		}
 		return fmt.Sprintf("after re-feeding the workload the tip is %s, the uninterrupted run ended at %s [cause: %s]", r.wl.w.ByHash[best.Hash].Name, r.wl.w.ByHash[finalTip].Name, cause)
 	}
